@@ -282,8 +282,10 @@ func (o *Obligation) modelTerms() (terms []string, keys []string) {
 
 var pcNameRe = regexp.MustCompile(`\|pc![0-9]+\|`)
 
-// splitCases returns a case split for the obligation: the disjuncts of the
-// most recent merged path condition its PC depends on (nil if there is none).
+// splitCases returns a case split for the obligation: the disjuncts of the most
+// recent control-flow merge that the path condition implies through conjunctions
+// only (nil if there is none). The caller additionally checks that the cases
+// cover the path condition, so the split is sound by construction.
 func (o *Obligation) splitCases() []string {
 	c := o.fn
 	seen := map[string]bool{}
@@ -291,21 +293,35 @@ func (o *Obligation) splitCases() []string {
 	bestN := -1
 	var visit func(pc string, depth int)
 	visit = func(pc string, depth int) {
-		for _, nm := range pcNameRe.FindAllString(pc, -1) {
-			if seen[nm] {
-				continue
+		pc = strings.TrimSpace(pc)
+		if depth > 12 || pc == "" {
+			return
+		}
+		if strings.HasPrefix(pc, "(and ") {
+			for _, part := range splitSexprs(pc[5 : len(pc)-1]) {
+				visit(part, depth+1)
 			}
-			seen[nm] = true
-			if ds, ok := c.merges[nm]; ok && len(ds) >= 2 && len(ds) <= 6 {
+			return
+		}
+		if !pcNameRe.MatchString(pc) || pcNameRe.FindString(pc) != pc {
+			return // an atom or a disjunction: nothing implied by name
+		}
+		if seen[pc] {
+			return
+		}
+		seen[pc] = true
+		if ds, ok := c.merges[pc]; ok {
+			if len(ds) >= 2 && len(ds) <= 6 {
 				var n int
-				fmt.Sscanf(nm, "|pc!%d|", &n)
+				fmt.Sscanf(pc, "|pc!%d|", &n)
 				if n > bestN {
-					bestN, best = n, nm
+					bestN, best = n, pc
 				}
 			}
-			if def, ok := c.pcDefs[nm]; ok && depth < 6 {
-				visit(def, depth+1)
-			}
+			return
+		}
+		if def, ok := c.pcDefs[pc]; ok {
+			visit(def, depth+1)
 		}
 	}
 	visit(o.PC, 0)
@@ -313,4 +329,53 @@ func (o *Obligation) splitCases() []string {
 		return nil
 	}
 	return c.merges[best]
+}
+
+// splitSexprs splits a sequence of s-expressions at top level.
+func splitSexprs(s string) []string {
+	var out []string
+	d := 0
+	start := -1
+	for i := 0; i < len(s); i++ {
+		ch := s[i]
+		switch {
+		case ch == '|':
+			if start < 0 {
+				start = i
+			}
+			j := strings.IndexByte(s[i+1:], '|')
+			if j < 0 {
+				return out
+			}
+			i += j + 1
+			if d == 0 && (i+1 >= len(s) || s[i+1] == ' ') {
+				out = append(out, s[start:i+1])
+				start = -1
+			}
+		case ch == '(':
+			if start < 0 {
+				start = i
+			}
+			d++
+		case ch == ')':
+			d--
+			if d == 0 && start >= 0 {
+				out = append(out, s[start:i+1])
+				start = -1
+			}
+		case ch == ' ' || ch == '\n':
+			if d == 0 && start >= 0 {
+				out = append(out, s[start:i])
+				start = -1
+			}
+		default:
+			if start < 0 {
+				start = i
+			}
+		}
+	}
+	if start >= 0 {
+		out = append(out, s[start:])
+	}
+	return out
 }
